@@ -397,10 +397,9 @@ fn parse_v_slots_directive(jsx_attr: &JSXAttr) -> Directive {
         Some(JSXAttrValue::JSXExprContainer(JSXExprContainer {
             expr: JSXExpr::Expr(expr),
             ..
-        })) => match &**expr {
-            Expr::Ident(..) | Expr::Object(..) => Some(expr.clone()),
-            _ => None,
-        },
+        // any expression is a slots object: an object literal's entries are inlined,
+        // everything else (`slots`, `this.$slots`, `getSlots()`) is spread
+        })) => Some(expr.clone()),
         _ => None,
     };
     Directive::Slots(expr)
